@@ -4,6 +4,19 @@ I64_MIN, I64_MAX = -(2 ** 63), 2 ** 63 - 1
 
 
 def hexs(b):
+    """canonical rendering shared with the model and the harness"""
+    if not b:
+        return "-"
+    if len(b) > 64:
+        h = 0
+        for x in b:
+            h = (h * 31 + x) % 4294967296
+        return "#%d#%d" % (len(b), h)
+    return b.hex()
+
+
+def rawhex(b):
+    """input encoding for the harness (full bytes)"""
     return b.hex() if b else "-"
 
 
@@ -36,15 +49,15 @@ def enc_any(f):
     return enc_single(f)
 
 
-def show(f):
+def show(f, full=False):
     t = f[0]
     if t in "SEB":
-        return t + hexs(f[1])
+        return t + (rawhex(f[1]) if full else hexs(f[1]))
     if t == "I":
         return "I%d" % f[1]
     if t == "N":
         return "N"
-    return "A(" + ",".join(show(x) for x in f[1]) + ")"
+    return "A(" + ",".join(show(x, full) for x in f[1]) + ")"
 
 
 def coq_frame(f, coq_bytes):
